@@ -40,8 +40,18 @@ def lemma_obligations(lm):
     ex.entry = st.clone()
     for h in list(lm.hyps) + list(lm.ih):
         st.assume(ex.spec_bool(h, st))
+    for hnt in lm.uses:
+        if hnt.split(":")[0].strip() == lm.name:
+            raise ValueError(f"lemma {lm.name} uses itself (write an induction hypothesis instead)")
+        st.assume(ex.lemma_instance(hnt, st))
     goal = ex.spec_bool(lm.goal, st)
     ex.oblige(st, "lemma", "goal", goal)
     for o in ex.obligations:
         o.name = o.name.replace("lemma." + lm.name + "/lemma/goal", "lemma/" + lm.name)
-    return ex.obligations
+    from .contract import LEMMAS
+
+    out = list(ex.obligations)
+    for other in sorted(getattr(ex, "used_lemmas", ())):
+        if not LEMMAS[other].trusted and other != lm.name:
+            out.extend(lemma_obligations(LEMMAS[other]))  # a lemma used in a proof is proved in the same run
+    return out
